@@ -9,7 +9,7 @@ ROOT = os.path.dirname(os.path.dirname(os.path.abspath(__file__)))
 CHECKS = {
  "C01": ("exploration",
          "bounded exhaustive enumeration of strings and token sequences over the full token alphabet through both parse entry points, with a parser progress monitor and process-level death/stall pinpointing",
-         "Every string of <= 5 (thorough 6) atoms over eight 14-symbol alphabets of critical atoms, every sequence of <= 3 (thorough 4) tokens over the token alphabet derived from SyntaxKind at run time (92 lexer-producible kinds plus text-dependent and malformed variants; rendered with blanks, tightly, and with an empty comment between all lexemes), thorough also every 5-token sequence at parser level (6.5e9), every model leaf statement under single-token faults (each token deleted, duplicated, replaced by each of 10 offenders), a long program cut after every token count, and 46 scaling families up to nesting 256 / 64 KiB are pushed through SourceFile::parse and SourceFile::parse_check_lex under catch_unwind in worker processes. A panic, failed assertion, overflow (strict profile), a parser loop that stops consuming (hook), a dead or stalled worker, or work above a frozen constant per token is a violation. Exhaustive within the bounds, so every grammar loop meets every token kind as the offending token by construction.",
+         "Every string of <= 5 (thorough 6) atoms over eight 14-symbol alphabets of critical atoms, every sequence of <= 3 (thorough 4) tokens over the token alphabet derived from SyntaxKind at run time (92 lexer-producible kinds plus text-dependent and malformed variants; rendered with blanks, tightly, and with an empty comment between all lexemes), thorough also every 5-token sequence at parser level (6.5e9), every model leaf statement under single-token faults (each token deleted, duplicated, replaced by each of 11 offenders (one of them a character the lexer does not know)), a long program cut after every token count, and 46 scaling families up to nesting 256 / 64 KiB are pushed through SourceFile::parse and SourceFile::parse_check_lex under catch_unwind in worker processes. A panic, failed assertion, overflow (strict profile), a parser loop that stops consuming (hook), a dead or stalled worker, or work above a frozen constant per token is a violation. Exhaustive within the bounds, so every grammar loop meets every token kind as the offending token by construction.",
          "Bounds: see evidence (lengths, nesting 256, 64 KiB). Strict build profile (debug assertions, overflow checks). Hook oq3_verif counts look-aheads/events. Four genuine defects found this way were repaired by fix: commits (known_findings.jsonl, fixed entries).",
          "DESIGN.md section 7, C01"),
  "C02": ("exploration",
@@ -24,7 +24,7 @@ CHECKS = {
          "DESIGN.md section 7, C03"),
  "C04": ("exploration",
          "bounded exhaustive enumeration of derivations of a reference grammar, each under every printing, through both parse entry points",
-         "All spines of <= 2 (thorough 3, and 4-5 over the reduced context set) compound-statement contexts (17 contexts: each body of if/else/while/for/case/default/gate/def as block or single statement) around ~65 leaf statement templates and (to depth 1, thorough 2) around 268 grid leaves (17 quantum statement forms x 8 operand forms, 6 declaration qualifiers x 16 types, 12 assignment operators x 3 target forms), all sequences of 2 (thorough 3) statements, all two- and three-operator expression trees over 19 binary and 3 unary operators in 12 expression positions, printed with minimal, full and redundant parentheses and 8 uniform separator flavours (one with a non-ASCII line comment); plus 54 statement texts of constructs outside the model grammar that the parser supports (arrays, extern, calibration, old-style registers, durationof, alias concatenation, built-in calls) in 5 positions x 6 separator flavours; any diagnostic of SourceFile::parse or parse_check_lex is a violation. Every context x construct pair is present by construction.",
+         "All spines of <= 2 (thorough 3, and 4-5 over the reduced context set) compound-statement contexts (17 contexts: each body of if/else/while/for/case/default/gate/def as block or single statement) around ~65 leaf statement templates and (to depth 1, thorough 2) around 268 grid leaves (17 quantum statement forms x 8 operand forms, 6 declaration qualifiers x 16 types, 12 assignment operators x 3 target forms), all sequences of 2 (thorough 3) statements, all two- and three-operator expression trees over 19 binary and 3 unary operators in 12 expression positions, printed with minimal, full and redundant parentheses and 9 uniform separator flavours (one with a non-ASCII line comment, one with CR LF, vertical tab and form feed); plus 54 statement texts of constructs outside the model grammar that the parser supports (arrays, extern, calibration, old-style registers, durationof, alias concatenation, built-in calls) in 5 positions x 6 separator flavours; any diagnostic of SourceFile::parse or parse_check_lex is a violation. Every context x construct pair is present by construction.",
          "The model grammar is listed in DESIGN.md 4.4; arrow measurement and box statements, which the parser does not accept, are outside the claim. Genuine rejections are recorded as known findings keyed by message + construct (DESIGN.md 10.4); repaired ones are in 10.3.",
          "DESIGN.md section 7, C04"),
  "C05": ("exploration",
@@ -44,7 +44,7 @@ CHECKS = {
          "DESIGN.md section 7, C07"),
  "C08": ("exploration",
          "exhaustive target x value-form decision table for declarations and assignments; typing rules checked on every expression node of every resulting graph",
-         "Every scalar type spelling of the tier (26 quick, 34 thorough; const and non-const targets) x every value form (11 literal forms, variable / const variable / explicit cast / subroutine call of every type, measurement of qubit and register, arithmetic over every ordered pair of numeric operand types x 4 operators, unary minus) for declarations with initializer and for assignments. On every expression node: identifier type = symbol type, literal type = its class marked const, cast type = target, measurement type = bit shape of the operand, arithmetic node type = the library's common type with both operands of that type or cast to it. On the statement: value type equals the target up to const-ness (directly or via a cast to exactly the target) or a type diagnostic sits on it; conversions in the must-diagnose class (kind down the tower, negative literal to unsigned, to/from bit, bool, duration, angle of another kind, narrowing of a non-constant) carry a diagnostic.",
+         "Every scalar type spelling of the tier (26 quick, 34 thorough; const and non-const targets) x every value form (11 literal forms, variable / const variable / explicit cast / subroutine call of every type, measurement of qubit and register, arithmetic over every ordered pair of numeric operand types x 10 operators (+ - * / % << >> & | ^), unary minus) for declarations with initializer and for assignments. On every expression node: identifier type = symbol type, literal type = its class marked const, cast type = target, measurement type = bit shape of the operand, arithmetic node type = the library's common type with both operands of that type or cast to it. On the statement: value type equals the target up to const-ness (directly or via a cast to exactly the target) or a type diagnostic sits on it; conversions in the must-diagnose class (kind down the tower, negative literal to unsigned, to/from bit, bool, duration, angle of another kind, narrowing of a non-constant) carry a diagnostic.",
          "Whether the common type is a correct join is C20. Over-diagnosis is not a violation. Two defects were repaired by fix: commits; one (integer imaginary literal typed int) is recorded.",
          "DESIGN.md section 7, C08"),
  "C09": ("exploration",
@@ -79,7 +79,7 @@ CHECKS = {
          "DESIGN.md section 7, C14"),
  "C15": ("exploration",
          "exhaustive enumeration of all ordered pairs and triples of lexeme instances times separator flavours against a hand-written expected-kind table",
-         "About 190 lexeme instances (every keyword and type name, punctuation, integer/float spellings, number+unit, identifiers incl. Unicode and keyword-prefixed, hardware qubits, bit strings, strings, comments, pragma/annotation lines, version header) in all ordered triples, and those plus every number spelling x every unit (glued and with a blank; ~520 instances) in all ordered pairs x 9 separators and alone with leading/trailing trivia; the non-trivia token table must be exactly the expected (kind, text) list with no lexical error, hence identical across separators.",
+         "About 190 lexeme instances (every keyword and type name, punctuation, integer/float spellings, number+unit, identifiers incl. Unicode and keyword-prefixed, hardware qubits, bit strings, strings, comments, pragma/annotation lines, version header) in all ordered triples, and those plus every number spelling x every unit (glued and with a blank; ~520 instances) in all ordered pairs x 12 separators and alone with leading/trailing trivia; the non-trivia token table must be exactly the expected (kind, text) list with no lexical error, hence identical across separators.",
          "Expected kinds are a hand-written table (keywords by naming convention). must_separate is conservative. Bare OPENQASM / pragma are excluded (header / line forms only). One finding recorded (upper-case base prefix glued to a unit).",
          "DESIGN.md section 7, C15"),
  "C16": ("exploration",
@@ -89,7 +89,7 @@ CHECKS = {
          "DESIGN.md section 7, C16"),
  "C17": ("exploration",
          "exhaustive enumeration of relational variants (layouts within a gap-deviation bound, renamings, all split points, repeated analysis) of every generated program; differential equality with no hand-written expected value",
-         "Every leaf template alone and inside each of 17 contexts after its declarations, every leaf behind one or two annotation lines, supported grid leaves, statement sequences (with annotation lines) and (thorough) programs with one injected semantic fault are analysed under: the 8 uniform layouts and every layout deviating from the default in <= 1 gap (thorough <= 2 gaps for short statements) of the statements after the prelude with each of 7 separator flavours (all gaps for the first program); 4 fixed injective renamings of all user identifiers (ASCII, leading underscore, Unicode, keyword-prefixed) plus rotations, reversal and every adjacent swap of the identifiers among themselves; every split at a top-level statement boundary (also directly after annotation lines); and twice unchanged. Graph equality (PartialEq), symbol table equality up to the renaming, equal diagnostic kinds (up to the renaming), prefix property for statements / symbols / diagnostics, and full equality including positions for the repeated run.",
+         "Every leaf template alone and inside each of 17 contexts after its declarations, every leaf behind one or two annotation lines, supported grid leaves, statement sequences (with annotation lines) and (thorough) programs with one injected semantic fault are analysed under: the 9 uniform layouts and every layout deviating from the default in <= 1 gap (thorough <= 2 gaps for short statements) of the statements after the prelude with each of 8 separator flavours (all gaps for the first program); 4 fixed injective renamings of all user identifiers (ASCII, leading underscore, Unicode, keyword-prefixed) plus rotations, reversal and every adjacent swap of the identifiers among themselves; every split at a top-level statement boundary (also directly after annotation lines); and twice unchanged. Graph equality (PartialEq), symbol table equality up to the renaming, equal diagnostic kinds (up to the renaming), prefix property for statements / symbols / diagnostics, and full equality including positions for the repeated run.",
          "Layouts beyond the deviation bound and renamings beyond the listed families are not covered. Programs not analysed (rejected or panicking) are skipped and counted.",
          "DESIGN.md section 7, C17"),
  "C18": ("exploration",
